@@ -32,6 +32,9 @@ def r_conversion(run, tree):
     from . import array_folds as af
     run.rule("C16.R5", "origin, radius and sizes are brought to the unit of the positions by Array.to (shared with C02/C08): scales by the unit ratio, no cast back to the source dtype", "D7 fold of Array.to", "", floor=6)
     af.check_to_fold(run, tree)
+    # ... from the operand as it is NOW: `radius *= 3` between two extractions must be seen by the second one (no memo of an earlier conversion)
+    from . import quantity_stack as qs
+    qs.check_to_stack(run, tree, only=("history",))
 
 
 def r_parent_links(run, tree):
@@ -39,6 +42,30 @@ def r_parent_links(run, tree):
     run.rule("C16.R6", "every way of putting a group into a Dataset sets its parent link (the mesh positions of groups without their own are "
              "found through group.parent)", "D7 fold of the Dataset class (shared with C20)", "", floor=4)
     cf.check_dataset_histories(run, tree)
+    # the link is a reference like any other (it keeps the Dataset it names alive): ds.copy() re-parents the SHARED groups to the copy - with a
+    # weak link the groups lose their parent as soon as that copy is dropped, and extract_* no longer finds the mesh positions
+    from ..models import WeakRef, PyObj, Raised
+    from ..peval import ProgramRaised, Unsupported
+    from ..source import AnalysisError
+    construct = "core/dataset.py::Dataset.__setitem__[the parent link is an ordinary (strong) reference]"
+    try:
+        hooks = cf.core_hooks()
+        ds = cf._ev(tree, hooks, cf.DS_Q + ".__init__").instantiate(tree.cls(cf.DS_Q), [], {}, None)
+        g = cf.new_group(tree, hooks)
+        cf.call_method(tree, hooks, ds, "__setitem__", "gas", g)
+        vals = []
+        for v in g._attrs.values():       # the attribute itself, or an entry of a container attribute
+            vals.append(v)
+            vals.extend(v.values() if isinstance(v, dict) else v if isinstance(v, (list, tuple, set)) else [])
+        strong = any(v is ds for v in vals)
+        weak = [k for k, v in g._attrs.items() if isinstance(v, WeakRef)]
+        run.ob(construct, strong and not weak, "src/osyris/core/datagroup.py", "group attributes holding the dataset: %s%s" % (
+            [k for k, v in g._attrs.items() if v is ds], (", weak references in %s" % weak) if weak else ""),
+            "c = ds.copy(); del c; extract_sphere(ds, ...) - the groups (shared with the dropped copy, re-parented to it) have no parent any more")
+    except (Raised, ProgramRaised) as e:
+        run.violated(construct, "src/osyris/core/dataset.py", "raises %s" % e, "storing a group")
+    except (Unsupported, AnalysisError) as e:
+        run.unresolved(construct, "src/osyris/core/dataset.py", "cannot fold: %s" % e)
 
 
 def r_norm_corners(run, tree):
